@@ -264,7 +264,7 @@ func vfC13Identity(w *vfWorld, cfg *vfCfg, sc *vfC13Scenario, r *vfResp, label s
 
 func vfSessionCookieSet(r *vfResp, name string) bool {
 	for _, c := range r.SetCookies {
-		if (c.Name == name || strings.HasPrefix(c.Name, name+"_") && !strings.HasSuffix(c.Name, "_csrf")) && c.Value != "" && c.MaxAge >= 0 {
+		if vfIsSessionCookie(&vfCfg{CookieName: name}, c.Name) && c.Value != "" && c.MaxAge >= 0 {
 			return true
 		}
 	}
